@@ -26,7 +26,7 @@ func outermost(fn *ssa.Function) *ssa.Function {
 func (c *Ctx) whoMay(sinkName string, sink Sel, allowed []string, minSites int) bool {
 	construct := "who-may " + sinkName
 	allow := map[string]bool{}
-	for _, a := range allowed {
+	for _, a := range c.withHosts(allowed) {
 		allow[a] = true
 	}
 	holders := map[string][]string{}
@@ -136,5 +136,67 @@ func (c *Ctx) ownersOf(fn *ssa.Function, depth int) []string {
 		return []string{c.nm(fn)}
 	}
 	sort.Strings(out)
+	return out
+}
+
+// withHosts: a tabled function that no longer exists in the current tree (and
+// was not renamed) was folded into its callers; its rights pass to the
+// functions that called it in the pinned tree (transitively while those are
+// missing too).
+func (c *Ctx) withHosts(names []string) []string {
+	seen := map[string]bool{}
+	var out []string
+	var add func(n string, d int)
+	add = func(n string, d int) {
+		if seen[n] || d > 4 {
+			return
+		}
+		seen[n] = true
+		if c.P.Func(n) != nil || c.P.Base == nil {
+			out = append(out, n)
+			return
+		}
+		callers := c.P.Base.Callers[n]
+		if len(callers) == 0 {
+			out = append(out, n)
+			return
+		}
+		for _, h := range callers {
+			add(h, d+1)
+		}
+	}
+	for _, n := range names {
+		add(n, 0)
+	}
+	return out
+}
+
+// hostsOf: the function itself when it exists, else the current functions it
+// was folded into (its callers in the pinned tree).
+func (c *Ctx) hostsOf(name string) (fns []*ssa.Function, folded bool) {
+	if f := c.P.Func(name); f != nil {
+		c.R.Funcs[name] = true
+		return []*ssa.Function{f}, false
+	}
+	for _, n := range c.withHosts([]string{name}) {
+		if f := c.P.Func(n); f != nil {
+			c.R.Funcs[n] = true
+			fns = append(fns, f)
+		}
+	}
+	if len(fns) == 0 {
+		panic(anchorErr{"function " + name + " (and the functions that called it in the pinned tree)"})
+	}
+	return fns, true
+}
+
+// methodsOpt: the named methods that exist in the current tree.
+func (c *Ctx) methodsOpt(pkg, typ string, names ...string) []*types.Func {
+	var out []*types.Func
+	for _, n := range names {
+		if m := c.P.Method(pkg, typ, n); m != nil {
+			out = append(out, m)
+		}
+	}
 	return out
 }
